@@ -277,6 +277,8 @@ def mutate_chunk(rng, f):
         start = p + (6 if b[p] >= 0xC0 else 5)
         csize = ((b[p + 3] << 8) | b[p + 4]) + 1
         k = rng.random()
+        if k < 0.12:
+            b[start] = rng.randrange(1, 256); return bytes(b), 'chunk-rc-first-byte'      # the range coder's first byte must be 0x00
         if k < 0.5 and csize > 6:
             i = start + rng.randrange(5, csize); b[i] ^= 1 << rng.randrange(8); return bytes(b), 'chunk-bitflip@%d' % i
         if k < 0.75 and csize > 8:
@@ -287,3 +289,43 @@ def mutate_chunk(rng, f):
         i = start + rng.randrange(1, max(2, csize)); del b[i:i + 1]; return bytes(b), 'chunk-delete@%d' % i
     except Exception:
         return mutate(rng, f)
+
+
+def gen_symbols(rng, n, p_bad=0.15):
+    """LZMA symbol tokens for the model encoder (oracle command lzmaenc): mostly valid w.r.t. the history built so far,
+    sometimes a distance / rep that reaches outside it (then the stream is invalid from that symbol on)"""
+    toks = []; hist = 0; reps = [0, 0, 0, 0]; bad = False; have_match = False
+    for _ in range(n):
+        k = rng.random()
+        wrong = (not bad) and rng.random() < p_bad / max(1, n / 6)
+        if k < 0.45 or (hist == 0 and not wrong):
+            toks.append('L%d' % rng.choice([0, 255, rng.getrandbits(8), 97, 98])); hist += 1
+        elif k < 0.75:
+            ln = rng.choice([2, 3, 4, 9, 10, 17, 18, 100, 273, rng.randrange(2, 274)])
+            d = rng.randrange(hist, hist + 4) if wrong else rng.choice([0, 1, 2, 3, 4, rng.randrange(0, hist), hist - 1])
+            d = max(0, d)
+            if wrong: bad = True
+            toks.append('M%d,%d' % (d, ln)); reps = [d] + reps[:3]; hist += ln; have_match = True
+        elif k < 0.85:
+            if hist == 0 or reps[0] >= hist: bad = True
+            toks.append('S'); hist += 1
+        else:
+            idx = rng.randrange(4); ln = rng.choice([2, 5, 18, 273, rng.randrange(2, 274)])
+            if hist == 0 or reps[idx] >= hist: bad = True
+            toks.append('R%d,%d' % (idx, ln)); r = reps.pop(idx); reps = [r] + reps; hist += ln
+    return toks
+
+def alone_wrap(raw, lc, lp, pb, dict_size=4096, size=None):
+    return bytes([(pb * 5 + lp) * 9 + lc]) + struct.pack('<I', dict_size) + (b'\xff' * 8 if size is None else struct.pack('<Q', size)) + raw
+
+
+def gen_runs(rng, n):
+    """short runs over a 2-3 symbol alphabet mixed with copies of earlier parts: many positions share long common
+    prefixes (stresses the binary-tree match finders, e.g. across flush points)"""
+    alpha = 2 + rng.randrange(2); out = bytearray()
+    while len(out) < n:
+        if len(out) > 50 and rng.randrange(4) == 0:
+            src = rng.randrange(len(out) - 20); l = 5 + rng.randrange(60); out += out[src:src + l]
+        else:
+            out += bytes([97 + rng.randrange(alpha)]) * (1 + rng.randrange(8))
+    return bytes(out[:n])
